@@ -68,7 +68,7 @@ def verdict (s : Int) (p : Printed) : String :=
 def psOne (s : Int) : String :=
   match printScaled s with
   | none => "panic"
-  | some p => s!"{p.render}:{showRes (scanNoUnits p)}:{b2s (scanBackSpec p == .ok s 0 0 && decide (p = Spec.printScaled s))}"
+  | some p => s!"{C06.Text.toksString (C06.Text.renderToks p)}:{showRes (scanNoUnits p)}:{b2s (scanBackSpec p == .ok s 0 0 && decide (p = Spec.printScaled s))}"
 
 def punit? : String → Option TUnit
   | "pt" => some .pt | "pc" => some .pc | "in" => some .inch | "bp" => some .bp
@@ -138,11 +138,9 @@ def us (s : String) : String := s.replace " " "_"
 
 /-- Spec side of a glue scan from its three parts. -/
 def specGlue (w : Spec.SR) (p m : Option Spec.SR) : String :=
-  let p := p.getD (.ok 0 0 0)
-  let m := m.getD (.ok 0 0 0)
-  match w, p, m with
-  | .ok wv we _, .ok pv pe po, .ok mv me mo => s!"ok {wv} {pv} {po} {mv} {mo} {we + pe + me}"
-  | _, _, _ => "undef"
+  match Spec.scanGlue w p m with
+  | some (g, e) => s!"ok {g.width} {g.stretch} {g.stretchOrder} {g.shrink} {g.shrinkOrder} {e}"
+  | none => "undef"
 
 def modelGlue (w : SRes) (p m : Option SRes) : String :=
   match scanGlue w p m with
@@ -226,7 +224,8 @@ def tglueS (g : PGlue) : String :=
 /-- `\advance\count<index><optional by><integer>`: index, summand, errors, rest. -/
 def tidx (dg : C06.Text.DigitFn) (spec : Bool) (t : List C06.Text.Tok) : String :=
   let i := C06.Text.parseInt dg t
-  let r := (C06.Text.keyword "by".toList i.rest).getD i.rest
+  let r0 := C06.Text.kwStart true i.rest
+  let r := (C06.Text.keyword "by".toList r0).getD r0
   let v := C06.Text.parseInt dg r
   let val (p : C06.Text.PInt) : Option (Int × Nat) :=
     match p.const with
@@ -245,13 +244,32 @@ def handle (line : String) : String :=
     s!"{tintM (C06.Text.parseInt constDigit (toks fl w))} | {tintS (C06.Text.parseInt Spec.constDigit (toks fl w))}"
   | ["tdim", fl, w] =>
     let fl := fl.toNat?.getD 0
-    s!"{tdimM (C06.Text.parseDimen constDigit false false (toks fl w))} | {tdimS (C06.Text.parseDimen Spec.constDigit false false (toks fl w))}"
+    -- M: the code (keywords skip blanks, the `l` loop does not); S: TeX; third: the code before C06-j
+    s!"{tdimM (C06.Text.parseDimen constDigit true false false false (toks fl w))} | {tdimS (C06.Text.parseDimen Spec.constDigit true true false false (toks fl w))} | {tdimM (C06.Text.parseDimen constDigit false false false false (toks fl w))}"
   | ["tglue", fl, w] =>
     let fl := fl.toNat?.getD 0
-    s!"{tglueM (C06.Text.parseGlue constDigit false (toks fl w))} | {tglueS (C06.Text.parseGlue Spec.constDigit false (toks fl w))}"
+    s!"{tglueM (C06.Text.parseGlue constDigit true false false (toks fl w))} | {tglueS (C06.Text.parseGlue Spec.constDigit true true false (toks fl w))} | {tglueM (C06.Text.parseGlue constDigit false false false (toks fl w))}"
   | ["tidx", fl, w] =>
     let fl := fl.toNat?.getD 0
     s!"{tidx constDigit false (toks fl w)} | {tidx Spec.constDigit true (toks fl w)}"
+  | "seq" :: ty :: a :: ops =>
+    let rec dec : List String → Option (List ArithOp)
+      | [] => some []
+      | o :: b :: t => do
+        let b ← parseInt? b
+        let op ← (match o with
+          | "adv" => some (ArithOp.advance b) | "mul" => some (ArithOp.multiply b) | "div" => some (ArithOp.divide b)
+          | _ => none)
+        let r ← dec t
+        pure (op :: r)
+      | _ => none
+    match parseInt? a, dec ops with
+    | some a, some ops =>
+      let m := if ty = "int" then runReg stepInt a ops else runReg stepDimen a ops
+      let s := if ty = "int" then Spec.runReg Spec.stepInt a ops else Spec.runReg Spec.stepDimen a ops
+      let ss := match s with | some r => s!"ok {r.1} {r.2}" | none => "undef"
+      s!"ok {m.1} {m.2} | {ss}"
+    | _, _ => "bad-request"
   | ["kx", x, n, dd] =>
     match parseInt? x, parseInt? n, parseInt? dd with
     | some x, some n, some dd =>
@@ -356,7 +374,12 @@ def handle (line : String) : String :=
         | _ => "bad-request"
   | "gp" :: t =>
     match ints? t >>= glue? with
-    | some g => s!"{us ((printGlue g).getD "panic")} | {us (specPrintGlue g)}"
+    | some g =>
+      -- M: the token printer of Model/C06Text.lean (what `the_text_roundtrip` / `the_glue_text_roundtrip`
+      -- are about), cross-checked against the string printer `printGlue`
+      let m := C06.Text.toksString (C06.Text.renderGlueToks g)
+      let m := if (printGlue g) == some m then m else s!"model-printers-disagree:{m}"
+      s!"{us m} | {us (specPrintGlue g)}"
     | none => "bad-request"
   | ["op", o, "int", a, b] =>
     match parseInt? a, parseInt? b with
